@@ -220,7 +220,15 @@ class Emitter:
                     o = dict(meta)
                     if meta['k'] == 'ins':
                         o['subline'] = li
-                # first non-blank content on this generated line wins
+                # first non-blank content on this generated line wins (markers alone do not count)
+                core = re.sub(r'/\*<V [^*]*\*/|/\*V>\*/|/\*<W\*/|/\*W>\*/', '', l).strip()
+                if not core:
+                    continue_line = True
+                else:
+                    continue_line = False
+                if continue_line:
+                    out.append(l)
+                    continue
                 if linemap[-1] is None and l.strip():
                     linemap[-1] = o
                 elif linemap[-1] is not None and meta['k'] == 'ins' and linemap[-1]['k'] != 'ins' and l.strip():
